@@ -46,7 +46,15 @@ class Prog:
         self.aliases = aliases or {}      # other acceptable table names for a variable (e.g. declaring class vs dynamic class) -> canonical
 
     def canon(self, d):
-        return {self.aliases.get(k, k): v for k, v in d.items()}
+        out = {}
+        for k, v in d.items():
+            ck = self.aliases.get(k, k)
+            if ck in out and all(isinstance(c, int) for c in list(v.values()) + list(out[ck].values())):
+                for o, c in v.items():                 # two acceptable names of one declaration: their counts add up
+                    out[ck][o] = out[ck].get(o, 0) + c
+            else:
+                out[ck] = dict(v)
+        return out
 
     def expected(self, outcomes):
         """per-evaluator tracked counts for one shot given the measurement outcomes of that shot in order"""
@@ -148,6 +156,31 @@ def programs(prep):
             for dn, dsrc in {"scope": "{ TS t = new TS(); t.go(); }", "null": "TS t = new TS(); t.go(); t = null;", "base-typed": "TB t = new TS(); t.go(); t = null;"}.items():
                 progs.append(Prog("inherited-field:%s:%s:%s" % (sn, dn, h), base + scls + "function main() -> void { %s%s echo(\"e\"); }" % (pad, dsrc), [("TS.q", [h])], 1,
                                   aliases={"TB.q": "TS.q", "TM.q": "TS.q"}))
+    # hunt C17: several declarators under one @tracked; objects that are still alive when the run ends (held by a static, in a cycle of
+    # tracked-field objects); a @tracked static field; a subclass that declares a field named like the inherited tracked one
+    for h0, h1 in itertools.product(HIST, HIST):
+        b0, _ = hist_stmts("a", h0, prep)
+        b1, _ = hist_stmts("b", h1, prep)
+        progs.append(Prog("multi-declaration:%s,%s" % (h0, h1), "function main() -> void { %s@tracked qubit a, b; %s %s echo(\"e\"); }" % (pad, b0, b1), [("qubit a", [h0]), ("qubit b", [h1])], 1))
+    for h in HIST:
+        fbody3, _ = hist_stmts("this.q", h, prep)
+        clsT3 = "class T { @tracked public qubit q; public T other; public constructor() -> T { this.other = null; } public function go() -> void { %s } }\n" % fbody3
+        progs.append(Prog("alive-at-end-static-held:%s" % h, clsT3 + "static class Keep { public static T t; }\nfunction main() -> void { %sT t = new T(); t.go(); Keep.t = t; echo(\"e\"); }" % pad, [("T.q", [h])], 1))
+        progs.append(Prog("alive-at-end-cycle:%s" % h, clsT3 + "function main() -> void { %sT a = new T(); T b = new T(); a.other = b; b.other = a; a.go(); b.go(); echo(\"e\"); }" % pad, [("T.q", [h]), ("T.q", [h])], 1))
+        sbody, _ = hist_stmts("S.q", h, prep)
+        progs.append(Prog("tracked-static-field:%s" % h, "static class S { @tracked public static qubit q; }\nfunction main() -> void { %s%s echo(\"e\"); }" % (pad, sbody), [("S.q", [h])], 1))
+    # (the base's field is left untouched: which of the two a base METHOD's 'this.q' means is not documented, so only the subclass's own
+    # field is operated on, from main, through a variable of the subclass type)
+    for h1 in HIST:
+        fb1, _ = hist_stmts("t.q", h1, prep)
+        two = ("class TB { @tracked public qubit q; public constructor() -> TB = default; }\n"
+               "class TS extends TB { @tracked public qubit q; public constructor() -> TS { super(); } }\n")
+        progs.append(Prog("same-name-field-in-subclass:%s" % h1, two + "function main() -> void { %sTS t = new TS(); %s t = null; echo(\"e\"); }" % (pad, fb1), [("TB.q", ["none"]), ("TS.q", [h1])], 1))
+    for h in HIST:
+        gb, _ = hist_stmts("this.q", h, prep)
+        gen = "class Bx<T> { @tracked public qubit q; public T v; public constructor(T v) -> Bx<T> { this.v = v; } public function go() -> void { %s } }\n" % gb
+        progs.append(Prog("generic-two-instantiations:%s" % h, gen + "function main() -> void { %sBx<int> a = new Bx<int>(1); a.go(); a = null; Bx<float> b = new Bx<float>(1.5f); b.go(); b = null; echo(\"e\"); }" % pad,
+                          [("Bx.q", [h]), ("Bx.q", [h])], 1, aliases={"Bx<int>.q": "Bx.q", "Bx<float>.q": "Bx.q"}))
     progs.append(Prog("array-measure-all", "function main() -> void { %s@tracked qubit[2] r; %s(r[0]); %s(r[1]); measure r; }" % (pad, prep or "z", prep or "z"), [("qubit[] r", ["M", "M"])]))
     progs.append(Prog("untracked", "function main() -> void { qubit q; measure q; echo(\"e\"); }", [], 1))
     return progs
@@ -275,6 +308,40 @@ def _cli_one(item):
     return desc, src, bad
 
 
+def _cli_raw(src, args):
+    r = vdrv.run_job({"id": "c", "kind": "cli", "opts": {"hook_draws": 1, "gc": "own"}, "argv": ["bloch"] + args + ["main.bloch"], "files": {"main.bloch": src}})
+    return r
+
+
+def cli_edges():
+    """(hunt C17 d1, d10) a shot count of zero means the same whether it comes from the flag or from the annotation; an --echo value the
+    documentation does not list is either refused or treated like the default - it never silently suppresses a single shot's echo.
+    -> list of (key, description, source)"""
+    bad = []
+    src = "function main() -> void { qubit pad; @tracked qubit q; measure q; echo(\"e\"); }"
+    n = 0
+    for cnt in (0,):
+        a = _cli_raw(src, ["--shots=%d" % cnt])
+        b = _cli_raw(src.replace("function main()", "@shots(%d)\nfunction main()" % cnt), [])
+        n += 2
+        if a.crash or b.crash or a.rec is None or b.rec is None:
+            bad.append(("cli-edge:shots-zero:died", "CLI died with a shot count of %d: %s %s" % (cnt, a.crash, b.crash), src))
+        elif (a.rec["rc"] == 0) != (b.rec["rc"] == 0):
+            bad.append(("cli-edge:shots-zero:flag-and-annotation-disagree", "--shots=%d exits %d but @shots(%d) exits %d: stdout %r" % (cnt, a.rec["rc"], cnt, b.rec["rc"], b.rec["stdout"][:200]), src))
+    for val in ("foo", "ALL", "", "al"):
+        r = _cli_raw(src, ["--echo=%s" % val])
+        n += 1
+        if r.crash or r.rec is None:
+            bad.append(("cli-edge:echo-value:died", "CLI died on --echo=%s: %s" % (val, r.crash), src))
+            continue
+        if r.rec["rc"] != 0:
+            continue
+        lines = [ln for ln in r.rec["stdout"].split("\n") if ln == "e"]
+        if len(lines) != 1:
+            bad.append(("cli-edge:echo-value:single-shot-echo-suppressed", "a single shot run with --echo=%s exits 0 and prints %d echo line(s) instead of 1" % (val, len(lines)), src))
+    return bad, n
+
+
 def main(tier):
     ck = vcheck.Check("C17", "exploration", tier)
     # evaluator level: superposed preparations, every outcome history
@@ -297,7 +364,8 @@ def main(tier):
                 # all measurements return 1: wrap expected()
                 base = p.expected
                 p.expected = (lambda b: (lambda outs: b([1] * len(outs))))(base)
-        sel = ps if tier == "thorough" else [p for p in ps if p.name.split(":")[0] in ("main", "for2", "helper2", "field-overwrite", "field-null", "two-sites", "array-measure-all", "block", "untracked", "field-reuse", "local-after-release", "borrow-array-after", "borrow-qubit", "stale-handle-then-tracked", "stale-handle-then-tracked-field", "field-owned-by-dropped-cycle", "inherited-field") or p.name.startswith("array:M")]
+        ps = [p for p in ps if not p.name.startswith("generic-two-instantiations")]    # two table names are acceptable there; compared at evaluator level only
+        sel = ps if tier == "thorough" else [p for p in ps if p.name.split(":")[0] in ("main", "for2", "helper2", "field-overwrite", "field-null", "two-sites", "array-measure-all", "block", "untracked", "field-reuse", "local-after-release", "borrow-array-after", "borrow-qubit", "stale-handle-then-tracked", "stale-handle-then-tracked-field", "field-owned-by-dropped-cycle", "inherited-field", "multi-declaration", "alive-at-end-static-held", "alive-at-end-cycle", "tracked-static-field", "same-name-field-in-subclass") or p.name.startswith("array:M")]
         modes = [("none", None, None)] + [("flag", n, None) for n in (1, 2, 3)] + [("ann", None, n) for n in (1, 2, 3)] + [("both-eq", 2, 2), ("both-diff", 3, 2), ("both-diff", 1, 3), ("both-diff", 2, 1)]
         echos = [None, "auto", "all", "none"]
         for p in sel:
@@ -311,6 +379,10 @@ def main(tier):
         ncli += 1
         for pbm in bad:
             ck.violation("cli:" + " ".join(re.sub(r"[0-9.]+", "#", pbm).split(" ")[:7]), "%s\ncommand: %s\nprogram:\n%s" % (pbm, desc, src), {"tool": "text", "case": desc + "\n" + src})
+    ebad, nedge = cli_edges()
+    ncli += nedge
+    for key, what, esrc in ebad:
+        ck.violation(key, "%s\nprogram:\n%s" % (what, esrc), {"tool": "text", "case": what + "\n" + esrc})
     ck.sample({"program": progs_h[5].src, "model_units": progs_h[5].units})
     ck.sample({"program": progs_h[-3].src, "model_units": progs_h[-3].units})
     ck.assumptions += ["probabilities are printed with three decimals (+-0.0005); row order, timing line, warnings are not compared",
